@@ -24,7 +24,11 @@ def sub_consts(t, acc):
 
 
 def analyse(mod, run, label):
-    cls = FM.extract(mod, "varintTaggedPut64", "enc")
+    try: cls = FM.extract(mod, "varintTaggedPut64", "enc")
+    except FM.EncoderNotInjective as ni:
+        run.fail(Finding("O1-equal-bytes-for-unequal-values", "varintTaggedPut64", "tagged", "witness",
+                         "varintTaggedPut64 writes the same bytes for x = %d and x = %d (%s): unequal values compare equal, and every value between them that encodes differently is ordered wrongly against one of the two" % (ni.ex.x1, ni.ex.x2, ni.ex)))
+        return 0
     lens = FM.ret_const(cls)
     if lens is None: raise AnalysisBroken("varintTaggedPut64: non-constant length in a class")
     if len(cls) < 9: raise AnalysisBroken("varintTaggedPut64: only %d classes" % len(cls))
@@ -79,7 +83,7 @@ def run(tier):
     for cfg in configs_for(tier):
         n = analyse(lib_module(cfg), run, cfg)
         per[cfg] = {"classes": n}
-        run.floor("classes of varintTaggedPut64 (%s)" % cfg, n, 9)
+        if n or not run.findings: run.floor("classes of varintTaggedPut64 (%s)" % cfg, n, 9)        # (no table at all when the encoder was shown not to be injective)
     # positive control: a little-endian payload must be rejected by (2)
     from ..e1 import C
     st = {0: C(250), 1: ("and", X, 0xff), 2: ("and", ("shr", X, 8), 0xff), 3: ("shr", X, 16)}
